@@ -493,7 +493,7 @@ fn c09(tier: &str) -> PropDef {
     let quick = tier == "quick";
     let families = vec![Family {
         name: "byzantine",
-        count: if quick { 60_000 } else { 2_000_000 },
+        count: if quick { 60_000 } else { 6_000_000 },
         make: Box::new(|seed, idx| {
             let mut r = Rng::stream(seed, "C09", idx, "byz");
             let mut g = G::new(idx);
@@ -518,7 +518,7 @@ fn c08(tier: &str) -> PropDef {
     let families = vec![
         Family {
             name: "large-writer",
-            count: if quick { 20 } else { 600 },
+            count: if quick { 20 } else { 1_800 },
             make: Box::new(|seed, idx| {
                 let mut r = Rng::stream(seed, "C08", idx, "large");
                 let mut g = G::new(idx);
@@ -530,7 +530,7 @@ fn c08(tier: &str) -> PropDef {
         },
         Family {
             name: "far-apart-replica",
-            count: if quick { 12 } else { 300 },
+            count: if quick { 12 } else { 900 },
             make: Box::new(|seed, idx| {
                 let mut r = Rng::stream(seed, "C08", idx, "far");
                 let count = *r.pick(&[33000u32, 40000, 66000, 70000]);
@@ -580,7 +580,7 @@ fn c08(tier: &str) -> PropDef {
         },
         Family {
             name: "replica-full-page",
-            count: if quick { 3 } else { 40 },
+            count: if quick { 3 } else { 120 },
             make: Box::new(|seed, idx| {
                 // a replica that ends up holding whole 32768-block pages, the last gap closing
                 // in front of blocks that reach the end of the highest page
@@ -612,7 +612,7 @@ fn c08(tier: &str) -> PropDef {
         },
         Family {
             name: "small-writer",
-            count: if quick { 15_000 } else { 400_000 },
+            count: if quick { 15_000 } else { 1_200_000 },
             make: Box::new(|seed, idx| {
                 let mut r = Rng::stream(seed, "C08", idx, "small");
                 let mut g = G::new(idx);
@@ -624,7 +624,7 @@ fn c08(tier: &str) -> PropDef {
         },
         Family {
             name: "small-replica",
-            count: if quick { 12_000 } else { 300_000 },
+            count: if quick { 12_000 } else { 900_000 },
             make: Box::new(|seed, idx| {
                 let mut r = Rng::stream(seed, "C08", idx, "replica");
                 let mut g = G::new(idx);
@@ -644,7 +644,7 @@ fn c08(tier: &str) -> PropDef {
         },
         Family {
             name: "crash-recovery",
-            count: if quick { 3000 } else { 60_000 },
+            count: if quick { 3000 } else { 180_000 },
             make: Box::new(|seed, idx| {
                 let mut r = Rng::stream(seed, "C08", idx, "crash");
                 let mut g = G::new(idx);
@@ -700,7 +700,7 @@ fn c12(tier: &str) -> PropDef {
     let families = vec![
         Family {
             name: "writer-histories",
-            count: if quick { 20_000 } else { 400_000 },
+            count: if quick { 20_000 } else { 1_200_000 },
             make: Box::new(move |seed, idx| {
                 let (_r, steps) = h1(seed, idx);
                 world_case(Cfg::basic(seed ^ idx), steps, Fault::None)
@@ -708,7 +708,7 @@ fn c12(tier: &str) -> PropDef {
         },
         Family {
             name: "replica-histories",
-            count: if quick { 6_000 } else { 120_000 },
+            count: if quick { 6_000 } else { 360_000 },
             make: Box::new(|seed, idx| {
                 let mut r = Rng::stream(seed, "C12", idx, "replica");
                 let mut g = G::new(idx);
@@ -729,7 +729,7 @@ fn c12(tier: &str) -> PropDef {
         },
         Family {
             name: "crash-in-make-read-only",
-            count: if quick { 2500 } else { 50_000 },
+            count: if quick { 2500 } else { 150_000 },
             make: Box::new(move |seed, idx| {
                 let (mut r, steps) = h2(seed, idx);
                 world_case(Cfg::basic(seed ^ idx), steps, Fault::CrashAll { node: 0, tear: false, suffix_seed: r.next(), double: false, sample: 0 })
@@ -737,7 +737,7 @@ fn c12(tier: &str) -> PropDef {
         },
         Family {
             name: "torn-write-in-make-read-only",
-            count: if quick { 700 } else { 15_000 },
+            count: if quick { 700 } else { 45_000 },
             make: Box::new(move |seed, idx| {
                 let (mut r, steps) = h3(seed, idx);
                 world_case(Cfg::basic(seed ^ idx), steps, Fault::CrashAll { node: 0, tear: true, suffix_seed: r.next(), double: false, sample: 0 })
@@ -757,7 +757,7 @@ fn c13(tier: &str) -> PropDef {
     let families = vec![
         Family {
             name: "writer",
-            count: if quick { 20_000 } else { 400_000 },
+            count: if quick { 20_000 } else { 1_200_000 },
             make: Box::new(|seed, idx| {
                 let mut r = Rng::stream(seed, "C13", idx, "writer");
                 let mut g = G::new(idx);
@@ -772,7 +772,7 @@ fn c13(tier: &str) -> PropDef {
         },
         Family {
             name: "replication-with-refusals",
-            count: if quick { 20_000 } else { 400_000 },
+            count: if quick { 20_000 } else { 1_200_000 },
             make: Box::new(|seed, idx| {
                 let mut r = Rng::stream(seed, "C13", idx, "repl");
                 let mut g = G::new(idx);
@@ -788,7 +788,7 @@ fn c13(tier: &str) -> PropDef {
         },
         Family {
             name: "faulty-network",
-            count: if quick { 3000 } else { 60_000 },
+            count: if quick { 3000 } else { 180_000 },
             make: Box::new(|seed, idx| {
                 // duplicated / stale / reordered deliveries: accepted redundant upgrades and
                 // refused stale proofs must announce exactly what the proof carried / nothing
@@ -806,7 +806,7 @@ fn c13(tier: &str) -> PropDef {
         },
         Family {
             name: "failing-calls",
-            count: if quick { 1000 } else { 20_000 },
+            count: if quick { 1000 } else { 60_000 },
             make: Box::new(|seed, idx| {
                 let mut r = Rng::stream(seed, "C13", idx, "fail");
                 let mut g = G::new(idx);
